@@ -88,8 +88,10 @@ CLAIMED = {
              "conservative case), that NULL rows raise nothing, that expression trees evaluate to their exact integer value, and "
              "that per-partition checked SUM followed by checked merging over ANY merge tree gives the exact sum or Overflow "
              "(guard: no partial sum equals the i64::MAX sentinel; refutation witness included). No operation can panic "
-             "(i64::MIN % -1 = 0 after the wrapping_rem fix). The model is tied to the Rust kernels and to LocustDB::run_query by a "
-             "differential run on every check.",
+             "(i64::MIN % -1 = 0 after the wrapping_rem fix). The model is tied to the Rust kernels (perform_checked on every operand "
+             "width; the Checked / NullableChecked operators in their vector-vector, vector-scalar and scalar-vector forms, driven "
+             "through a real Scratchpad) and to LocustDB::run_query (incl. constant-on-the-left `/`, `%`, `-` over nullable columns) "
+             "by a differential run on every check.",
         note="Planner choice of checked vs unchecked operators is covered only by the API-level differential (no registry "
              "translator). Trusted: Coq kernel, extraction, OCaml/Rust glue, the Rust reference evaluator.",
         technique="Coq proof over an executable model of the checked-arithmetic kernels + kernel-level and API-level differential correspondence",
@@ -134,7 +136,9 @@ CLAIMED = {
              "of the specification; limit + offset saturates (both after fix 0df51a0).",
         note="top_n's heap (heap_replace is modelled and differentially tested, no heap-invariant proof), partition / subpartition / "
              "merge_partitioned for multi-key sorts (modelled and differentially tested, not proved), NULL placement by the "
-             "comparators and per-partition sorting are covered by the kernel and API differentials against Model/QuerySpec.v only. "
+             "comparators and per-partition sorting are covered by the kernel and API differentials against Model/QuerySpec.v only "
+             "(one slice sorts by a key that is NULL throughout one of >= 3 partitions, which sends the merge through the dynamically "
+             "typed comparators). "
              "The bridge from `topk` to the QuerySpec checker is not proved.",
         technique="Coq proof over executable models of the sorted-merge kernels + kernel-level and API-level differential correspondence",
         design_ref="5/C05"),
